@@ -453,7 +453,10 @@ def _pp_build(v, val, pp, ev, Raised, hooks):
         return obj
     if isinstance(v, T) and v.op == 'call' and isinstance(v.args[0], str) \
             and v.args[0].startswith('pyparsing.'):
-        fn = getattr(pp, v.args[0].split('.', 1)[1])
+        fn = pp
+        for part in v.args[0].split('.')[1:]:
+            # a method of a module-level element ("quotedString.copy")
+            fn = getattr(fn, part)
         pos, kw = [], {}
         for a in v.args[1:]:
             if isinstance(a, T) and a.op == 'kw':
@@ -466,6 +469,9 @@ def _pp_build(v, val, pp, ev, Raised, hooks):
     if isinstance(v, T) and v.op == 'parseaction':
         base = ev(v.args[0], val, hooks).copy()
         params, body = v.args[1], v.args[2]
+        if isinstance(body, ExtRef):
+            base.setParseAction(ev(body, val, hooks))
+            return base
 
         def action(s_, l_, t_):
             v2 = dict(val)
@@ -524,6 +530,10 @@ def install_configurators(interp):
 def _rebind_parse_action(interp, base, margs):
     from ..core.values import FuncRef
     f = margs[0]
+    from ..core.values import ExtRef
+    if isinstance(f, ExtRef) and f.name.startswith('pyparsing.'):
+        # one of pyparsing's own parse actions (removeQuotes, ...)
+        return T('parseaction', base, (), f)
     if not isinstance(f, FuncRef):
         interp.inexact('parse action is not a function')
         return base
@@ -603,6 +613,10 @@ def _end_to_end(ctx, keys):
               '>= -3', '<= -3', '= -5', '> -9', '< -3', '>= 10', '<= 9',
               '-3', 's== #1', '<in> #b', '<or> a <or> #b', '<all-in> #x y',
               '#abc', 's!= #', '>= 1#',
+              # quotes are ordinary operand characters
+              "s== 'q'", 's== "q"', '"ab"cd', "''", "<or> 'a' <or> b",
+              "<all-in> 'aes' mmx", "<in> 'b'", "'abc'", "s!= 'q'x",
+              "it's", 'a"b',
               # white space before / after / inside
               ' >= 5', '  <or> a <or> b', ' s== abc', '\t<in> bc', '>= 5 ',
               ' <range-in> [ 1 5 ] ', '<or>  a  <or>  b', ' <all-in> aes']
@@ -613,7 +627,8 @@ def _end_to_end(ctx, keys):
               'abc,', 'a,', "['aes,', 'mmx']",
               "['a\u00e9s', 'mmx']", '\u00e9t\u00e9',
               '-3', '-9', '-2', '10', '9', '#1', '#b', 'a#b', "['#x', 'y']",
-              '#abc', '#')
+              '#abc', '#', "'q'", 'q', '"q"', '"ab"cd', 'ab', "''", "'a'",
+              "['aes', 'mmx']", "'b'", "'abc'", "it's", 'a"b')
 
     if ctx.thorough:
         operands = ('-1', '0', '4', '6', '5.0', '4.99', '5.01', '1e1', 'abc',
@@ -694,4 +709,17 @@ def _end_to_end(ctx, keys):
                            'abc', '<range-in> [ 1 10 ]',
                            '<range-in> [ 1 10 )', '<or> 5 <or> abc',
                            '<or> 3')}, oracle,
+                   hooks=[_pp_hook], value_eq=_bool_eq, setup=setup2, depth=7)
+    # specs that differ only in where their white space stands
+    guided_compare(rep, 'R18.7', 'match[after an earlier call]',
+                   'match(value, spec) after match() with a spec of the '
+                   'same characters, spaced differently', world, thunk2,
+                   {value1: ('x',),
+                    spec1: ('<all-in> ab c', '<range-in> [ 1 234 ]',
+                            '<or> ab <or> c', 's== ab', '>= 12'),
+                    value: ("['a', 'bc']", "['ab', 'c']", '20', 'bc', 'ab',
+                            '5'),
+                    spec: ('<all-in> a bc', '<range-in> [ 12 34 ]',
+                           '<or> a <or> bc', 's== a b', '>= 1 2',
+                           '<all-in> ab c')}, oracle,
                    hooks=[_pp_hook], value_eq=_bool_eq, setup=setup2, depth=7)
